@@ -268,3 +268,19 @@ LEVEL_TEXT += _ADDR5B
 _ADDR5D = ' Borrowed: R17.8 (add_type_modules only registers modules; it never evaluates strings it meets among Literal values).'
 EXPLANATION += _ADDR5D
 LEVEL_TEXT += _ADDR5D
+
+
+_run_before_r6b = run
+
+
+def run(repo, rep, tier):  # noqa: F811 -- round-6 remedies (core/round6.py)
+    _run_before_r6b(repo, rep, tier)
+    if getattr(rep, "borrowed", False):
+        return
+    from ..core import round6 as _r6b
+    _r6b.emitted_tuple_displays(repo, rep, "R16.7")
+
+
+_ADDR6C = ' R16.7: an emitted `in (<joined items>)` test is guarded by len(items) > 1 or a trailing comma.'
+EXPLANATION += _ADDR6C
+LEVEL_TEXT += _ADDR6C
